@@ -20,13 +20,14 @@ func HarnessC04Step(a []int) {
 	conn := vTunnel(sock, tcp)
 	c, e := nondetU8(), nondetU8()
 	conn.channel = c
-	req := &knxnet.TunnelReq{Channel: nondetU8(), SeqNumber: nondetU8(), Payload: c04Msgs[0]}
+	payload := c04Msgs[nondetChoice(7)] // any cEMI kind
+	req := &knxnet.TunnelReq{Channel: nondetU8(), SeqNumber: nondetU8(), Payload: payload}
 	seq := e
 	got := 0
 	reader := func() {
 		verifDaemon()
 		for m := range conn.inbound {
-			if m == c04Msgs[0] {
+			if m == payload {
 				got++
 			} else {
 				got += 100
